@@ -383,7 +383,7 @@ fn run(a: &vhcore::Args) -> i32 {
         .map(|(i, (src, _))| request(i as u64, &pkg_name(i), src, vec![spec("F", release, true, false, false)]))
         .collect();
 
-    let mut pool = Pool::new(a.jobs, vhcore::work_dir("C11"));
+    let mut pool = Pool::new(a.jobs, vhcore::work_dir("C11/pool"));
     // workers keep every compiled package in their engines; recycle to bound memory
     pool.recycle_after = 100;
 
@@ -611,10 +611,10 @@ fn replay(a: &vhcore::Args) -> i32 {
     let r = &v["replay"];
     println!("replaying {}: {}", v["key"], vhcore::truncate(v["what"].as_str().unwrap_or(""), 400));
     match r["kind"].as_str() {
-        Some("tests") => replay_tests("C11replay", r),
+        Some("tests") => replay_tests("C11/replay", r),
         Some("build") => {
             let b = build_in_process(
-                "C11replay",
+                "C11/replay",
                 r["name"].as_str().unwrap_or("replay_pkg"),
                 r["src"].as_str().unwrap_or(""),
                 spec("replay", r["release"].as_bool().unwrap_or(false), true, false, true),
@@ -638,11 +638,11 @@ fn main() {
     let code = match a.cmd.as_str() {
         "check" => run(&a),
         "replay" => replay(&a),
-        "try" => try_file("C11try", &a.rest[0], a.rest.get(1).map(|s| s == "release").unwrap_or(false)),
+        "try" => try_file("C11/try", &a.rest[0], a.rest.get(1).map(|s| s == "release").unwrap_or(false)),
         "seq" => {
             // debugging: build the listed quick-tier contracts one after the other in ONE in-process worker (Mode F)
             let seqs = name_sequences();
-            let mut w = vh_comp::worker::Worker::new(vhcore::work_dir("C11seq"));
+            let mut w = vh_comp::worker::Worker::new(vhcore::work_dir("C11/seq"));
             for (n, arg) in a.rest.iter().enumerate() {
                 let parts: Vec<usize> = arg.split(',').map(|x| x.parse().unwrap()).collect();
                 let c = contract_with(&seqs[parts[0]], parts[1], parts[2] == 1);
